@@ -314,3 +314,13 @@ Theorem C08_value_for_key_code_is_model : forall pf st m key subkeys, g_fieldSep
                  (fun vs => match vs with [] => Err EOther | v :: _ => Ok v end)).
 Proof. exact value_for_key_code_is_model. Qed.
 Print Assumptions C08_value_for_key_code_is_model.
+
+(* ---- Map.PathsForKey (keyvalues.go), translated from the current sources (the basket handed to hasKeyPath, nil for an
+   empty basket, make + the range loop that copies the keys out) and instantiated with the translated hasKeyPath:
+   a permutation of the model's paths_for_key - Go ranges over the basket in hash order (GenProofs/PureG10.v) *)
+From Mxj Require Import GenProofs.PureG10.
+
+Theorem C08_paths_for_key_entry_code_is_model : forall st m key,
+  exists ps, fn_PathsForKey (run_hasKeyPath st) st m key = Ret ps /\ Permutation ps (paths_for_key (VMap m) key).
+Proof. exact paths_for_key_entry_code_is_model. Qed.
+Print Assumptions C08_paths_for_key_entry_code_is_model.
